@@ -38,7 +38,7 @@ CLAIMED = {
          "Every forest of <=3 (4 thorough) blocks with parent and QC link each in {genesis, earlier block, missing}, views <=4 (5) increasing along both links, all presentation orders, per-block mode {proposal flow, fetched}, VoteRule view argument {v-1,v,v+1}, AggQC absent/present; plus the two-branch family (main chain + one fork, every fork point and view interleaving, one optional gap) up to 7 (9) blocks. Compared per step: vote verdict, decided block, lock, and the structural clause on every decision.",
          "Random forests beyond the bound are not sampled (outside this family); QC objects carry the view of the block they name.", "§4 C04"),
  "C12": ("enum", "bounded-exhaustive product grammar of protocol objects through ToProto -> Marshal -> Unmarshal -> FromProto, oracle = identity of hash / bytes-to-sign / participants / verdict",
-         "Signatures (absent, empty, 1..n signers, non-prefix signer set), partial certs, QCs (views 0/1/max x hashes zero/genesis/real), TCs, aggregate QCs with 0..n entries incl. ids 0 and 2^32-1, sync info in all 16 combinations of QC {absent, quorum, signature-less genesis, signature-less other block} x TC x AggQC, timeout messages with/without message signature, blocks over parent x batch (nil, empty, 1, 3 commands incl. empty data) x QC x view x proposer x 6 timestamps (epoch, 1ns, pre-1970, sub-microsecond, non-UTC zone, year 9999), proposals with/without AggQC; blocks additionally fetched by hash through the quorum function; three schemes, n in {1,2,4} ({1,2,3,4,7} thorough).",
+         "Signatures (absent, empty, 1..n signers, non-prefix signer set), partial certs, QCs (views 0/1/max x hashes zero/genesis/real), TCs, aggregate QCs with 0..n entries incl. ids 0 and 2^32-1 and two different certificates for the same block, sync info in all 16 combinations of QC {absent, quorum, signature-less genesis, signature-less other block} x TC x AggQC, timeout messages with/without message signature, blocks over parent x batch (nil, empty, 1, 3 commands incl. empty data) x QC x view x proposer x 6 timestamps (epoch, 1ns, pre-1970, sub-microsecond, non-UTC zone, year 9999), proposals with/without AggQC; blocks additionally fetched by hash through the quorum function; three schemes, n in {1,2,4} ({1,2,3,4,7} thorough).",
          "The product is thinned by a fixed parity rule (every value still meets every other); sender id of a timeout is taken from the connection as the server does.", "§4 C12"),
  "C18": ("enum+seqmc", "exhaustive draining of the real scenario generator for every setting in the box (below a stated cap) and exhaustive enumeration of commit-log combinations through the real verdict function",
          "Generator: all 204 settings with nodes<=5, twins<=2, partitions<=3, views<=4 whose announced count <= 2*10^5 (3*10^6 thorough): yielded == announced, no repetition, two generators agree, EOF is sticky, every view well-formed, shuffle with seeds 0..2 reproducible and a permutation, JSON writer/reader round trip. Executor: all 40^k combinations of commit logs (length<=3 over 3 blocks) for 4 layouts of up to 4 nodes incl. a twin pair vs. a reference 'first position where two non-twin replicas differ'.",
